@@ -3,7 +3,10 @@
 import json, os, importlib, sys
 HERE = os.path.dirname(os.path.dirname(os.path.abspath(__file__)))
 sys.path.insert(0, HERE)
-META = json.load(open(os.path.join(HERE, "tools", "manifest_meta.json")))
+META = {}
+for fn in sorted(os.listdir(os.path.join(HERE, "tools", "meta"))):
+    if fn.endswith(".json"):
+        META[fn[:-5]] = json.load(open(os.path.join(HERE, "tools", "meta", fn)))
 props = [json.loads(l) for l in open(os.path.join(HERE, "properties.jsonl"))]
 checks, na = [], []
 for p in props:
